@@ -1,10 +1,10 @@
 #!/bin/bash
-# seed_eval.sh <Cxx> <A|B> [props...]: confirm a seeded change produced by a sub-agent and record what catches it.
+# [SEED_SRC=dir SEED_TAG=r2] seed_eval.sh <Cxx> <A|B|C> [props...]: confirm a seeded change produced by a sub-agent and record what catches it.
 #   confirms in a scratch worktree: patch applies, library builds, pinned suite green, demonstration fails
 #   with the change and passes without; then runs the quick checks against that worktree.
 prop=$1; var=$2; shift 2
-src=/tmp/seed_out/$prop/$var
-id=${prop}${var}
+src=${SEED_SRC:-/tmp/seed_out}/$prop/$var
+id=${prop}${SEED_TAG}${var}
 wt=/tmp/seedwt_$id
 export GOFLAGS=-mod=mod GOPROXY=off GOSUMDB=off GOTOOLCHAIN=local
 [ -f $src/patch.diff ] || { echo "$id: no patch"; exit 2; }
@@ -14,6 +14,7 @@ demo=$(ls $src/*_test.go | head -1)
 # some demonstrations need a build flag (stated in the sub-agent's notes)
 dflags=""
 case $id in C18A|C18B) dflags="-race";; C20B) dflags="-tags inplacetranspose";; esac
+[ -n "$SEED_DFLAGS" ] && dflags="$SEED_DFLAGS"
 res="{}"
 fail() { echo "$id REJECTED: $1"; git -C /repo worktree remove --force $wt; exit 1; }
 # demo passes without the change
